@@ -145,6 +145,15 @@ def run(project, chk):
                     n_ctx += 1
                     lits = common_literals(pG.get(pn.id))
                     own = {a for a, tgt in p_aliases.items() if norm_text(tgt) == "self.background_context"} if isinstance(p_aliases, dict) else set()
+                    # flags that only record the context's presence / validity: present = bool(context), ok = context.is_valid
+                    for st0 in own_nodes(parse.node):
+                        if isinstance(st0, ast.Assign) and len(st0.targets) == 1 and isinstance(st0.targets[0], ast.Name):
+                            v0 = st0.value
+                            if isinstance(v0, ast.Call) and isinstance(v0.func, ast.Name) and v0.func.id == "bool" and len(v0.args) == 1:
+                                v0 = v0.args[0]
+                            t0 = norm_text(_ua(v0, p_aliases)) if isinstance(v0, (ast.Name, ast.Attribute)) else ""
+                            if t0.startswith("self.background_context") and sum(1 for x in own_nodes(parse.node) if isinstance(x, ast.Name) and x.id == st0.targets[0].id and isinstance(x.ctx, ast.Store)) == 1:
+                                own.add(st0.targets[0].id)
                     extra = sorted(t for (t, v) in lits if not (t.startswith("self.background_context") or t in ("self._parsed", "self._parsed is True", "self._parsed is False")
                                                                  or any(t == a or t.startswith(a + ".") or t.startswith(a + " ") for a in own)))
                     chk.check(not extra, "W2", parse.short, norm_text(x), project.loc(parse.module, x), "the context's rgb is taken whenever a valid context was given",
